@@ -896,6 +896,11 @@ def main():
     if vac:
         log("VACUOUS scenarios (no feasible path): %s" % vac)
         rc = 2
+    if not only and s.get("undecided_count", 0) > 0 and s.get("discharged", 0) == 0:
+        # the run deadline was reached before a single goal was decided (a tree on which path exploration blows up, or a
+        # machine far slower than planned for): "nothing refuted" would be an empty statement, so nothing is claimed
+        log("INCONCLUSIVE no goal of engine S was decided (%d undecided): nothing is claimed for this tree" % s.get("undecided_count", 0))
+        rc = 2
     if disagreements:
         log("SOLVER-DISAGREEMENT: %s" % disagreements[:5])
         rc = 2
